@@ -254,11 +254,10 @@ example : stringValue {} (.node (.element 2) [.node (.attribute 3 ['v']) [], .no
 
 /-! ### deep_equal_xpath = the plain comparison of the trees without comments and PIs -/
 
-/-- Deleting the comments and PIs (leaves) below a normal root of a tree with well-ordered children
-    and unique attribute names gives a structurally valid tree. -/
-theorem C13_stripped_valid (a : Tree) (na : a.value.isNormal = true) (va : a.validRootFor xpathKeep = true)
-    (da : a.noInnerDocument = true) : a.stripCommentsPis.valid = true := by
-  rw [strip_eq_discard a da]; exact valid_discard_of_validRootFor xpathKeep a na va
+/-- Deleting every comment and PI (with whatever hangs under it) from a structurally valid tree
+    gives a structurally valid tree. -/
+theorem C13_stripped_valid (a : Tree) (va : a.valid = true) : a.stripCommentsPis.valid = true :=
+  valid_stripCommentsPis a va
 
 /-- `deep_equal_xpath(a, b, cmp)` on element/element or document/document IS
     `advanced_deep_equal(strip a, strip b, |_| true, cmp)`: the unfiltered comparison, with the
@@ -279,13 +278,17 @@ theorem C13_xpath_stripped_cmp (cmp : TextCmp) (a b : Tree) (va : a.validRootFor
   rw [this, strip_eq_discard a da, strip_eq_discard b db]
   exact xpath_eq_advanced_discard cmp a b va vb h
 
-/-- With `==` as the text comparison: `deep_equal_xpath(a, b, ==) = deep_equal(strip a, strip b)`,
-    "the same relation after discarding comments and PIs below the compared nodes". -/
-theorem C13_xpath_stripped (a b : Tree) (va : a.validRootFor xpathKeep = true)
-    (vb : b.validRootFor xpathKeep = true) (da : a.noInnerDocument = true) (db : b.noInnerDocument = true)
+/-- With `==` as the text comparison, on structurally valid trees whose text / comment / PI nodes
+    are leaves and that hold no document node below the root:
+    `deep_equal_xpath(a, b, ==) = deep_equal(strip a, strip b)`, "the same relation after
+    discarding comments and PIs below the compared nodes" (and `strip a`, `strip b` are valid). -/
+theorem C13_xpath_stripped (a b : Tree) (va : a.valid = true) (vb : b.valid = true)
+    (la : a.contentLeaves = true) (lb : b.contentLeaves = true)
+    (da : a.noInnerDocument = true) (db : b.noInnerDocument = true)
     (h : (a.value.isElement = true ∧ b.value.isElement = true) ∨ (a.value = .document ∧ b.value = .document)) :
     deepEqualXpath strEq a b = deepEqual a.stripCommentsPis b.stripCommentsPis :=
-  C13_xpath_stripped_cmp strEq a b va vb da db h
+  C13_xpath_stripped_cmp strEq a b (validRootFor_xpathKeep_of_valid a va la da)
+    (validRootFor_xpathKeep_of_valid b vb lb db) da db h
 
 /-- "Discarding" deletes nodes and merges nothing.  `<e>x<!--c-->y</e>` against `<e>xy</e>`:
     `deep_equal_xpath` is false (the stripped tree has the two text children `x`, `y`), although
@@ -306,12 +309,12 @@ theorem C13_xpath_no_text_merge :
 example : deepEqualXpath strEq
     (.node (.element 2) [.node (.attribute 3 ['v']) [], .node (.comment ['c']) [], .node (.text ['x']) []])
     (.node (.element 2) [.node (.attribute 3 ['v']) [], .node (.text ['x']) [], .node (.pi 4 none) []]) = true := by
-  rw [C13_xpath_stripped _ _ (by decide) (by decide) (by decide) (by decide) (Or.inl ⟨rfl, rfl⟩)]
+  rw [C13_xpath_stripped _ _ (by decide) (by decide) (by decide) (by decide) (by decide) (by decide) (Or.inl ⟨rfl, rfl⟩)]
   decide
 
 example : (Tree.node (.element 2) [.node (.attribute 3 ['v']) [], .node (.comment ['c']) [], .node (.text ['x']) []]
     ).stripCommentsPis.valid = true :=
-  C13_stripped_valid _ (by decide) (by decide) (by decide)
+  C13_stripped_valid _ (by decide)
 
 /-! ### The canonical form is a sorted normal form -/
 
